@@ -49,7 +49,9 @@ def _is_nt(doc, perm):
 def check_doc_perm(doc, perm, cfg, ref_obs=None):
     version = doc["version"]
     lines = gen.doc_lines(doc)
-    model = M.ModelDoc.from_doc(doc)
+    model = M.ModelDoc(version)
+    for l in doc["lines"]:
+        model.add(G.Rec.from_plain(l, version))  # (further lines of a group are merged into it)
 
     def build(order, what):
         try:
@@ -84,6 +86,7 @@ def check_doc_perm(doc, perm, cfg, ref_obs=None):
 
 def prop(case):
     doc, perm, cfg = case["doc"], case["perm"], case.get("cfg", {})
+    perm = _keep_group_order(doc, perm)
     check_doc_perm(doc, perm, cfg)
     return {"nt": _is_nt(doc, perm), "version": doc["version"], "perm_kind": case.get("kind", "random")}
 
@@ -95,12 +98,30 @@ def prop_all(case):
     ref = None
     nt = 0
     for perm in itertools.permutations(range(n)):
+        if _keep_group_order(doc, perm) != list(perm):
+            continue  # (the lines of one group keep their order)
         ref = check_doc_perm(doc, list(perm), cfg, ref)
         nt += _is_nt(doc, perm)
     return {"nt": nt > 0, "orders": n, "version": doc["version"]}
 
 
-DOC_OPTS = {"both_forms": False, "shuffle": False}
+DOC_OPTS = {"both_forms": False, "shuffle": False, "split_groups": 0.3, "twin_custom": 0.3}
+
+
+def _keep_group_order(doc, perm):
+    """Lines that continue one group (same record type and identifier) keep their relative order in every
+    permutation: their order is the order of the items, which is content, not arrival."""
+    groups = {}
+    for i, l in enumerate(doc["lines"]):
+        if l[0] in "OU" and l[1][0] != "*":
+            groups.setdefault((l[0], l[1][0]), []).append(i)
+    perm = list(perm)
+    for idxs in groups.values():
+        if len(idxs) > 1:
+            pos = sorted(perm.index(i) for i in idxs)
+            for p_, i in zip(pos, sorted(idxs)):
+                perm[p_] = i
+    return perm
 
 
 def _targeted(r, doc):
